@@ -17,21 +17,26 @@ pkgs=$(grep '^+++ b/' $out/patch.diff | sed 's|+++ b/||' | xargs -n1 dirname | s
 testpkg=$(head -30 $out/demo_test.go | grep -m1 '^package ' | awk '{print $2}')
 res_apply=ok; (cd $wt && git apply $out/patch.diff) || res_apply=FAILED
 existing=ok
-for p in $pkgs; do (cd $wt && $GOENV go test -vet=off -count=1 ./$p/ >/tmp/evalseed_existing.log 2>&1) || existing=FAILED; done
+for p in $pkgs; do (cd $wt && $GOENV go test -vet=off -count=1 ./$p/ >$wt.existing.log 2>&1) || existing=FAILED; done
 # demo goes into the first touched package dir
 demodir=$(echo $pkgs | awk '{print $1}')
 cp $out/demo_test.go $wt/$demodir/zz_seeded_demo_test.go
-(cd $wt && $GOENV go test -vet=off -count=1 -run 'TestSeededDemo' ./$demodir/ >/tmp/evalseed_demo_with.log 2>&1) && demo_with=PASSES || demo_with=fails
+(cd $wt && $GOENV go test -vet=off -count=1 -run 'TestSeededDemo' ./$demodir/ >$wt.demo_with.log 2>&1) && demo_with=PASSES || demo_with=fails
 (cd $wt && git apply -R $out/patch.diff)
-(cd $wt && $GOENV go test -vet=off -count=1 -run 'TestSeededDemo' ./$demodir/ >/tmp/evalseed_demo_without.log 2>&1) && demo_without=passes || demo_without=FAILS
-git -C /repo worktree remove --force $wt
-# run the check on /repo with the change
-git -C /repo apply $out/patch.diff
+(cd $wt && $GOENV go test -vet=off -count=1 -run 'TestSeededDemo' ./$demodir/ >$wt.demo_without.log 2>&1) && demo_without=passes || demo_without=FAILS
+rm -f $wt/$demodir/zz_seeded_demo_test.go
+# run the check against the scratch worktree with the change applied (same
+# binary, same harnesses; GOSYM_REPO redirects the tree that is loaded and
+# GOSYM_EVIDENCE_DIR keeps /verif/evidence, which belongs to the unchanged
+# /repo, from being overwritten) -- so several seeded changes can be
+# evaluated in parallel and /repo is never modified.
+(cd $wt && git apply $out/patch.diff)
 start=$(date +%s)
-/verif/bin/gosym check $id --tier $tier > $out/check_$tier.log 2>&1
+GOSYM_REPO=$wt GOSYM_EVIDENCE_DIR=$wt.ev /verif/bin/gosym check $id --tier $tier > $out/check_$tier.log 2>&1
 code=$?
 end=$(date +%s)
-git -C /repo checkout -- .
+git -C /repo worktree remove --force $wt
+rm -rf $wt.ev $wt.*.log
 viol=$(grep -c '^VIOLATION' $out/check_$tier.log)
 python3 - "$id" "$name" "$tier" "$res_apply" "$existing" "$demo_with" "$demo_without" "$code" "$viol" "$((end-start))" "$out" <<'PY'
 import json,sys
@@ -45,7 +50,7 @@ meta={"property":id,"name":name,"patch_applies":ap,"existing_tests_with_change":
  "check":{"tier":tier,"exit_code":int(code),"violation_lines":int(viol),"seconds":int(secs),"detected":int(code)==1,"output":lines},
  "needs":notes[:1500],
  "ran":[f"git worktree add (scratch); git apply patch.diff; go test ./<pkg>/ (existing suite); go test -run TestSeededDemo with and without the change",
-        f"git -C /repo apply patch.diff; /verif/bin/gosym check {id} --tier {tier}; git -C /repo checkout -- ."]}
+        f"scratch worktree of /repo with patch.diff applied; GOSYM_REPO=<worktree> GOSYM_EVIDENCE_DIR=<scratch> /verif/bin/gosym check {id} --tier {tier}; git worktree remove --force"]}
 json.dump(meta,open(out+'/meta.json','w'),indent=1)
 print(f"{name}: confirmed={meta['confirmed']} (apply={ap} existing={ex} demo_with={dw} demo_without={dwo}) check exit={code} violations={viol} {secs}s")
 PY
